@@ -1,4 +1,6 @@
-"""C17 — file_lines confines changes to the selected code (range algebra part)."""
+"""C17 — file_lines confines changes to the selected code."""
+import re
+
 from . import common, coqterm
 
 PROP = "C17"
@@ -125,6 +127,109 @@ def nontrivial(c, r):
     return False
 
 
+# ---------------------------------------------------------------- end to end: the formatter consults the selection
+
+def fl(ranges):
+    import json as _j
+    return ["file_lines", _j.dumps([{"file": "stdin", "range": [a, b]} for a, b in ranges])]
+
+
+def line_of(text_bytes, off):
+    return text_bytes[:off].count(b"\n") + 1
+
+
+def e2e(rep, tier, seed):
+    import hashlib
+    import random
+    from . import pool
+    P = [p for p in pool.load() if p["id"].startswith("source/") and not any(k == "file_lines" for k, _ in p["header"])]
+    MOD = 5
+    if tier != "thorough":
+        P = [p for p in P if int(hashlib.sha1(p["id"].encode()).hexdigest()[:6], 16) % MOD == seed % MOD]
+    nodes = common.run_vh_pool("nodes", [{"text": p["text"], "config": p["header"]} for p in P], per_case_timeout=20)
+    cases, meta = [], []
+    for p, nd in zip(P, nodes):
+        if not isinstance(nd, dict) or not nd.get("nodes"):
+            continue
+        b = p["text"].encode("utf-8")
+        nlines = p["text"].count("\n") + 1
+        items = [(line_of(b, lo), line_of(b, max(lo, hi - 1)), lo, hi, kind) for kind, lo, hi, parent in nd["nodes"] if kind == "item" and parent == "root"]
+        if len(items) < 2:
+            continue
+        rnd = random.Random(p["id"])
+        sels = []
+        it = rnd.choice(items)
+        sels.append(("aligned", [(it[0], it[1])]))
+        a = rnd.randint(1, nlines)
+        sels.append(("cutting", [(a, min(nlines, a + rnd.randint(0, 6)))]))
+        sels.append(("empty_range", [(max(2, a), max(2, a) - 1)]))
+        sels.append(("past_end", [(nlines + 3, nlines + 9)]))
+        sels.append(("none", []))
+        sels.append(("all", [(1, nlines + 1)]))
+        for name, R in sels:
+            variants = [R]
+            if R and name in ("aligned", "cutting"):
+                (x, y) = R[0]
+                m = (x + y) // 2
+                # equivalent selections: split into adjacent / overlapping pieces, add an empty range, permute
+                variants.append([(m + 1, y), (x, m)] if m + 1 <= y else [(x, y), (x, y)])
+                variants.append([(x, min(y, m + 1)), (m, y), (y + 5, y + 4)])
+            for vi, V in enumerate(variants):
+                cases.append({"text": p["text"], "config": pool.merged(p["header"], [fl(V)]), "again": False, "lex": False})
+                meta.append((p["id"], name, vi, R, items))
+        cases.append({"text": p["text"], "config": p["header"], "again": False, "lex": False})
+        meta.append((p["id"], "unrestricted", 0, None, items))
+    res = common.run_vh_pool("pool", cases, per_case_timeout=15)
+    found = n = 0
+    by = {}
+    for (pid, name, vi, R, items), c, r in zip(meta, cases, res):
+        by.setdefault(pid, {})[(name, vi)] = (c, r, R, items)
+    for pid, d in by.items():
+        full = d.get(("unrestricted", 0))
+        if full is None or not pool.accepted(full[1]):
+            continue
+        text = full[0]["text"]
+        tb = text.encode("utf-8")
+        for (name, vi), (c, r, R, items) in d.items():
+            if name == "unrestricted" or not pool.accepted(r):
+                continue
+            n += 1
+            out = r["out"]
+            base = {"pool_id": pid, "selection": R, "variant": vi, "config": c["config"], "input": text, "out": out}
+            if name in ("none", "empty_range", "past_end") and vi == 0:
+                if out.rstrip("\n") != text.replace("\r\n", "\n").rstrip("\n") and out.rstrip("\n") != text.rstrip("\n"):
+                    if rep.violation("e2e_empty_selection:%s" % pid, base, "a selection that selects no line of the file (%s %r) changed the text of %s" % (name, R, pid)):
+                        found += 1
+                continue
+            if name == "all":
+                if out != full[1]["out"]:
+                    if rep.violation("e2e_full_selection:%s" % pid, base, "selecting every line of %s gives a different text than no restriction" % pid):
+                        found += 1
+                continue
+            if vi > 0:
+                ref = d.get((name, 0))
+                if ref is not None and pool.accepted(ref[1]) and ref[1]["out"] != out:
+                    if rep.violation("e2e_union:%s" % pid, base, "selections with the same union format %s differently: %r vs %r" % (pid, R, c["config"][-1][1])):
+                        found += 1
+                continue
+            # unselected top-level items are emitted byte for byte
+            for (l1, l2, lo, hi, kind) in items:
+                if any(not (l2 < a or b < l1) for a, b in R):
+                    continue
+                snippet = tb[lo:hi].decode("utf-8", "replace")
+                first = snippet.lstrip().split(None, 1)[0] if snippet.strip() else ""
+                if snippet.replace("\r\n", "\n") not in out.replace("\r\n", "\n"):
+                    is_run = re.match(r"^(pub(\([^)]*\))?\s+)?(use|mod|extern\s+crate)\b", snippet.lstrip()) is not None and snippet.rstrip().endswith(";")
+                    key = "e2e_partially_selected_run" if is_run else "e2e_unselected_item_changed:%s" % pid
+                    if rep.violation(key, dict(base, item_lines=[l1, l2], item=snippet),
+                                     "an unselected top-level item (lines %d-%d) of %s is not emitted byte for byte under selection %r: %r" % (l1, l2, pid, R, snippet[:100])):
+                        found += 1
+                    break
+    rep.coverage["e2e_runs_judged"] = n
+    rep.coverage["e2e_rule"] = "pool source programs (thorough: all; quick: the 1/%d selected by the seed) x selections {one item exactly, a random window cutting through items, an empty range, a range past the end, no range, every line} and for the first two, two equivalent re-spellings (adjacent / overlapping pieces, an extra empty range, permuted): unselected top-level items byte for byte; empty selections change nothing; full selection = unrestricted; equal unions give equal text" % MOD
+    return found
+
+
 def run(tier, seed, replay):
     return common.standard_run(
         PROP, tier, seed, replay,
@@ -132,5 +237,6 @@ def run(tier, seed, replay):
         imports="From V Require Import Base.Text C17.Model C17.Run.\nOpen Scope N_scope.",
         model_expr=model_expr, canon_model=canon_model, canon_impl=canon_impl, oracle=oracle,
         nontrivial=nontrivial,
+        extra=e2e,
         rule="seeded random selections: 1-2 files x 0..5 ranges each over lines 0..17 (20% possibly empty lo>hi, singletons, overlapping, adjacent), stdin / existing / non-canonicalisable file names, 6 query ranges + 4 range pairs per case; non-trivial = queried file has >= 2 ranges; distinct by hash",
     )
